@@ -72,38 +72,74 @@ theorem permuteIter_perm {d : Dims} {p : List Nat} (h : p.Perm (List.range d.len
   rw [map_getD_range] at this
   exact this
 
-/-! ### `Derived` at a position given by an index -/
+/-! ### Classes of layouts closed under the five abstract view steps
 
-theorem Derived.eraseIdx' {d : List (Nat × Nat)} (h : Derived d) {i : Nat} (hi : i < d.length)
-    (hs : 1 ≤ d[i].1) : Derived (d.eraseIdx i) := by
+`ViewClosed Q` is exactly the closure under the non-base constructors of `Derived`.  Both
+`Derived` itself and the verdict `mayOverlap · = false` are instances, so every theorem below
+holds for "stays in the advertised class" and for "stays accepted". -/
+
+structure ViewClosed (Q : List (Nat × Nat) → Prop) : Prop where
+  perm {dims dims' : List (Nat × Nat)} : Q dims → dims.Perm dims' → Q dims'
+  slice {pre post : List (Nat × Nat)} {size stride size' step : Nat} :
+      Q (pre ++ (size, stride) :: post) →
+      (size' = 0 ∨ (1 ≤ step ∧ (size' - 1) * step < size)) →
+      Q (pre ++ (size', stride * step) :: post)
+  index {pre post : List (Nat × Nat)} {size stride : Nat} :
+      Q (pre ++ (size, stride) :: post) → 1 ≤ size → Q (pre ++ post)
+  insertUnit {pre post : List (Nat × Nat)} {s : Nat} :
+      Q (pre ++ post) → Q (pre ++ (1, s) :: post)
+  merge {pre post : List (Nat × Nat)} {t m n : Nat} :
+      Q (pre ++ (n, t * m) :: (m, t) :: post) → Q (pre ++ (m * n, t) :: post)
+
+theorem derived_viewClosed : ViewClosed Derived :=
+  ⟨.perm, .slice, .index, .insertUnit, .merge⟩
+
+/-- The overlap verdict itself is closed under the five steps (`c08_accept_perm`,
+`c08_slice_accepted`, `c08_index_axis_accepted`, `c08_unit_axis`, `c08_merge_accepted`). -/
+theorem accepted_viewClosed : ViewClosed (fun d => mayOverlap d = false) where
+  perm h hp := by rw [← accept_perm hp]; exact h
+  slice h hfit := by
+    rcases hfit with h0 | ⟨hstep, hfit⟩
+    · subst h0; simp [mayOverlap]
+    · exact c08_slice_accepted _ _ _ _ _ _ hstep (Or.inr hfit) h
+  index h hs := c08_index_axis_accepted _ _ _ _ hs h
+  insertUnit h := by rw [c08_unit_axis]; exact h
+  merge h := c08_merge_accepted _ _ _ _ _ h
+
+section Generic
+variable {Q : List (Nat × Nat) → Prop}
+
+
+theorem ViewClosed.eraseIdx' (hQ : ViewClosed Q) {d : List (Nat × Nat)} (h : Q d) {i : Nat} (hi : i < d.length)
+    (hs : 1 ≤ d[i].1) : Q (d.eraseIdx i) := by
   rw [List.eraseIdx_eq_take_drop_succ]
-  have h' : Derived (d.take i ++ (d[i].1, d[i].2) :: d.drop (i + 1)) := by
+  have h' : Q (d.take i ++ (d[i].1, d[i].2) :: d.drop (i + 1)) := by
     rw [← list_split d i hi]; exact h
-  exact Derived.index h' hs
+  exact hQ.index h' hs
 
-theorem Derived.setSize {d : List (Nat × Nat)} (h : Derived d) {i : Nat} (hi : i < d.length)
-    {n : Nat} (hn : n ≤ d[i].1) : Derived (d.set i (n, d[i].2)) := by
+theorem ViewClosed.setSize (hQ : ViewClosed Q) {d : List (Nat × Nat)} (h : Q d) {i : Nat} (hi : i < d.length)
+    {n : Nat} (hn : n ≤ d[i].1) : Q (d.set i (n, d[i].2)) := by
   rw [List.set_eq_take_append_cons_drop, if_pos hi]
-  have h' : Derived (d.take i ++ (d[i].1, d[i].2) :: d.drop (i + 1)) := by
+  have h' : Q (d.take i ++ (d[i].1, d[i].2) :: d.drop (i + 1)) := by
     rw [← list_split d i hi]; exact h
-  have := Derived.slice (size' := n) (step := 1) h' (by omega)
+  have := hQ.slice (size' := n) (step := 1) h' (by omega)
   simpa using this
 
-theorem Derived.insertIdx' {d : List (Nat × Nat)} (h : Derived d) {i : Nat} (hi : i ≤ d.length)
-    (s : Nat) : Derived (d.insertIdx i (1, s)) := by
+theorem ViewClosed.insertIdx' (hQ : ViewClosed Q) {d : List (Nat × Nat)} (h : Q d) {i : Nat} (hi : i ≤ d.length)
+    (s : Nat) : Q (d.insertIdx i (1, s)) := by
   rw [insertIdx_eq _ d i hi]
   rw [← List.take_append_drop i d] at h
-  exact .insertUnit h
+  exact hQ.insertUnit h
 
-theorem Derived.resizeDim {d : List (Nat × Nat)} (h : Derived d) {i : Nat} (hi : i < d.length)
-    {n : Nat} (hn : n ≤ (d.getD i (0, 0)).1) : Derived (resizeDim d i n) := by
+theorem ViewClosed.resizeDim (hQ : ViewClosed Q) {d : List (Nat × Nat)} (h : Q d) {i : Nat} (hi : i < d.length)
+    {n : Nat} (hn : n ≤ (d.getD i (0, 0)).1) : Q (resizeDim d i n) := by
   unfold Layout.resizeDim
   rw [getD_eq d i hi] at hn
   rw [List.getElem?_eq_getElem hi]
-  exact h.setSize hi hn
+  exact hQ.setSize h hi hn
 
-theorem Derived.filterUnits : ∀ (d pre : List (Nat × Nat)), Derived (pre ++ d) →
-    Derived (pre ++ d.filter (fun p => p.1 != 1)) := by
+theorem ViewClosed.filterUnits (hQ : ViewClosed Q) : ∀ (d pre : List (Nat × Nat)), Q (pre ++ d) →
+    Q (pre ++ d.filter (fun p => p.1 != 1)) := by
   intro d
   induction d with
   | nil => intro pre h; simpa using h
@@ -113,7 +149,7 @@ theorem Derived.filterUnits : ∀ (d pre : List (Nat × Nat)), Derived (pre ++ d
     · have hf : (a :: d).filter (fun p => p.1 != 1) = d.filter (fun p => p.1 != 1) := by
         simp [h1]
       rw [hf]
-      exact ih pre (Derived.index (size := a.1) (stride := a.2) h (by omega))
+      exact ih pre (hQ.index (size := a.1) (stride := a.2) h (by omega))
     · have hf : (a :: d).filter (fun p => p.1 != 1) = a :: d.filter (fun p => p.1 != 1) := by
         simp [h1]
       rw [hf]
@@ -123,28 +159,28 @@ theorem Derived.filterUnits : ∀ (d pre : List (Nat × Nat)), Derived (pre ++ d
 /-! ### permuted / transposed / move_axis -/
 
 /-- `permuted` (also `permute`) keeps a view in the class. -/
-theorem c08_permuted_derived (v v' : View) (p : List Nat) (h : Derived v.dims)
-    (hop : permuted v p = .ok v') : Derived v'.dims := by
+theorem viewClosed_permuted (hQ : ViewClosed Q) (v v' : View) (p : List Nat) (h : Q v.dims)
+    (hop : permuted v p = .ok v') : Q v'.dims := by
   unfold permuted at hop
   split at hop
   · rename_i hv
     cases hop
-    exact .perm h (permuteIter_perm (valid_perm hv)).symm
+    exact hQ.perm h (permuteIter_perm (valid_perm hv)).symm
   · cases hop
 
 /-- `transposed`. -/
-theorem c08_transposed_derived (v : View) (h : Derived v.dims) : Derived (transposed v).dims := by
+theorem viewClosed_transposed (hQ : ViewClosed Q) (v : View) (h : Q v.dims) : Q (transposed v).dims := by
   unfold transposed
-  exact .perm h (permuteIter_perm (List.reverse_perm _)).symm
+  exact hQ.perm h (permuteIter_perm (List.reverse_perm _)).symm
 
 /-- `move_axis`. -/
-theorem c08_moveAxis_derived (v v' : View) (src dst : Nat) (h : Derived v.dims)
-    (hop : moveAxis v src dst = .ok v') : Derived v'.dims := by
+theorem viewClosed_moveAxis (hQ : ViewClosed Q) (v v' : View) (src dst : Nat) (h : Q v.dims)
+    (hop : moveAxis v src dst = .ok v') : Q v'.dims := by
   unfold moveAxis at hop
   split at hop
   · rename_i hv
     cases hop
-    refine .perm h (List.Perm.symm ?_)
+    refine hQ.perm h (List.Perm.symm ?_)
     have hlen : dst ≤ (v.dims.eraseIdx src).length := by
       rw [List.length_eraseIdx_of_lt hv.1]; omega
     refine (List.perm_insertIdx _ _ hlen).trans ?_
@@ -245,9 +281,9 @@ theorem sliceDim_spec {size stride adj : Nat} {it : SliceItem} {keep : Option (N
             cases hq
             exact ⟨r.step.toNat, rfl, indexRange_steps (by omega) hir⟩
 
-theorem sliceLoop_derived : ∀ (d : Dims) (items : List SliceItem) (pre : List (Nat × Nat))
-    (off : Nat) (out : Dims), Derived (pre ++ d) → sliceLoop d items = .ok (off, out) →
-    Derived (pre ++ out) := by
+theorem sliceLoop_closed (hQ : ViewClosed Q) : ∀ (d : Dims) (items : List SliceItem) (pre : List (Nat × Nat))
+    (off : Nat) (out : Dims), Q (pre ++ d) → sliceLoop d items = .ok (off, out) →
+    Q (pre ++ out) := by
   intro d
   induction d with
   | nil =>
@@ -284,13 +320,13 @@ theorem sliceLoop_derived : ∀ (d : Dims) (items : List SliceItem) (pre : List 
           have hspec := sliceDim_spec hres
           cases keep with
           | none =>
-            exact ih its pre off' out' (Derived.index h (hspec.1 rfl)) hres2
+            exact ih its pre off' out' (hQ.index h (hspec.1 rfl)) hres2
           | some q =>
             obtain ⟨size', stride'⟩ := q
             obtain ⟨step, hst, hfit⟩ := hspec.2 _ rfl
             simp only at hst hfit
             subst hst
-            have h1 : Derived (pre ++ (size', stride * step) :: d) := Derived.slice h hfit
+            have h1 : Q (pre ++ (size', stride * step) :: d) := hQ.slice h hfit
             have := ih its (pre ++ [(size', stride * step)]) off' out' (by simpa using h1) hres2
             simpa using this
 
@@ -303,8 +339,8 @@ theorem window_dims {v v' : View} {a b : Nat} {d : Dims} (h : v.window a b d = .
 
 /-- `try_slice` / `slice` with any list of `SliceItem`s (ranges with any step the code
 accepts, indices, fewer items than axes). -/
-theorem c08_trySlice_derived (v v' : View) (items : List SliceItem) (h : Derived v.dims)
-    (hop : trySlice v items = .ok v') : Derived v'.dims := by
+theorem viewClosed_trySlice (hQ : ViewClosed Q) (v v' : View) (items : List SliceItem) (h : Q v.dims)
+    (hop : trySlice v items = .ok v') : Q v'.dims := by
   unfold trySlice at hop
   split at hop
   · cases hop
@@ -320,11 +356,11 @@ theorem c08_trySlice_derived (v v' : View) (items : List SliceItem) (h : Derived
         obtain ⟨off', out'⟩ := res
         simp only [pure, Except.pure, Except.ok.injEq, Prod.mk.injEq] at hsl
         obtain ⟨_, rfl⟩ := hsl
-        exact sliceLoop_derived v.dims items [] off' out' (by simpa using h) hres
+        exact sliceLoop_closed hQ v.dims items [] off' out' (by simpa using h) hres
 
 /-- `slice_axis`. -/
-theorem c08_sliceAxis_derived (v v' : View) (axis start stop : Nat) (h : Derived v.dims)
-    (hop : sliceAxis v axis start stop = .ok v') : Derived v'.dims := by
+theorem viewClosed_sliceAxis (hQ : ViewClosed Q) (v v' : View) (axis start stop : Nat) (h : Q v.dims)
+    (hop : sliceAxis v axis start stop = .ok v') : Q v'.dims := by
   unfold sliceAxis at hop
   split at hop
   · cases hop
@@ -332,19 +368,19 @@ theorem c08_sliceAxis_derived (v v' : View) (axis start stop : Nat) (h : Derived
     split at hop
     · cases hop
     · rename_i hrng
-      have hd : Derived (resizeDim v.dims axis (stop - start)) :=
-        h.resizeDim (by omega) (by omega)
+      have hd : Q (resizeDim v.dims axis (stop - start)) :=
+        hQ.resizeDim h (by omega) (by omega)
       simp only at hop
       split at hop <;> (rw [window_dims hop]; exact hd)
 
 /-- `index_axis`. -/
-theorem c08_indexAxis_derived (v v' : View) (axis index : Nat) (h : Derived v.dims)
-    (hop : indexAxis v axis index = .ok v') : Derived v'.dims := by
+theorem viewClosed_indexAxis (hQ : ViewClosed Q) (v v' : View) (axis index : Nat) (h : Q v.dims)
+    (hop : indexAxis v axis index = .ok v') : Q v'.dims := by
   unfold indexAxis at hop
   split at hop
   · rename_i hv
-    have hd : Derived (v.dims.eraseIdx axis) := by
-      refine h.eraseIdx' hv.1 ?_
+    have hd : Q (v.dims.eraseIdx axis) := by
+      refine hQ.eraseIdx' h hv.1 ?_
       have := hv.2
       rw [getD_eq _ _ hv.1] at this
       omega
@@ -353,14 +389,14 @@ theorem c08_indexAxis_derived (v v' : View) (axis index : Nat) (h : Derived v.di
   · cases hop
 
 /-- `split_at` (either half). -/
-theorem c08_splitAt_derived (v v' : View) (axis mid : Nat) (right : Bool) (h : Derived v.dims)
-    (hop : splitAt v axis mid right = .ok v') : Derived v'.dims := by
+theorem viewClosed_splitAt (hQ : ViewClosed Q) (v v' : View) (axis mid : Nat) (right : Bool) (h : Q v.dims)
+    (hop : splitAt v axis mid right = .ok v') : Q v'.dims := by
   unfold splitAt at hop
   split at hop
   · rename_i hv
-    have hl : Derived (resizeDim v.dims axis mid) := h.resizeDim hv.1 hv.2
-    have hr : Derived (resizeDim v.dims axis ((v.dims.getD axis (0, 0)).1 - mid)) :=
-      h.resizeDim hv.1 (by omega)
+    have hl : Q (resizeDim v.dims axis mid) := hQ.resizeDim h hv.1 hv.2
+    have hr : Q (resizeDim v.dims axis ((v.dims.getD axis (0, 0)).1 - mid)) :=
+      hQ.resizeDim h hv.1 (by omega)
     simp only at hop
     repeat' split at hop
     all_goals first | (cases hop; done) | (cases hop; first | exact hr | exact hl)
@@ -369,35 +405,35 @@ theorem c08_splitAt_derived (v v' : View) (axis mid : Nat) (right : Bool) (h : D
 /-! ### insert_axis / remove_axis / squeezed / merge_axes -/
 
 /-- `insert_axis` (whatever stride it picks for the new unit axis). -/
-theorem c08_insertAxis_derived (v v' : View) (index : Nat) (h : Derived v.dims)
-    (hop : insertAxis v index = .ok v') : Derived v'.dims := by
+theorem viewClosed_insertAxis (hQ : ViewClosed Q) (v v' : View) (index : Nat) (h : Q v.dims)
+    (hop : insertAxis v index = .ok v') : Q v'.dims := by
   unfold insertAxis at hop
   split at hop
   · rename_i hv
     cases hop
-    exact h.insertIdx' hv _
+    exact hQ.insertIdx' h hv _
   · cases hop
 
 /-- `remove_axis`. -/
-theorem c08_removeAxis_derived (v v' : View) (index : Nat) (h : Derived v.dims)
-    (hop : removeAxis v index = .ok v') : Derived v'.dims := by
+theorem viewClosed_removeAxis (hQ : ViewClosed Q) (v v' : View) (index : Nat) (h : Q v.dims)
+    (hop : removeAxis v index = .ok v') : Q v'.dims := by
   unfold removeAxis at hop
   split at hop
   · rename_i hv
     cases hop
-    refine h.eraseIdx' hv.1 ?_
+    refine hQ.eraseIdx' h hv.1 ?_
     have := hv.2
     rw [getD_eq _ _ hv.1] at this
     omega
   · cases hop
 
 /-- `squeezed`. -/
-theorem c08_squeezed_derived (v : View) (h : Derived v.dims) : Derived (squeezed v).dims := by
-  have := Derived.filterUnits v.dims [] (by simpa using h)
+theorem viewClosed_squeezed (hQ : ViewClosed Q) (v : View) (h : Q v.dims) : Q (squeezed v).dims := by
+  have := hQ.filterUnits v.dims [] (by simpa using h)
   simpa [squeezed] using this
 
-theorem mergeStep_derived (rest acc : Dims) (o : Nat × Nat)
-    (h : Derived (rest ++ o :: acc)) : Derived (rest ++ mergeStep acc o) := by
+theorem mergeStep_closed (hQ : ViewClosed Q) (rest acc : Dims) (o : Nat × Nat)
+    (h : Q (rest ++ o :: acc)) : Q (rest ++ mergeStep acc o) := by
   unfold mergeStep
   split
   · exact h
@@ -406,16 +442,16 @@ theorem mergeStep_derived (rest acc : Dims) (o : Nat × Nat)
     · rename_i hc
       rcases hc with h1 | h2
       · -- the outer dim has size 1: it is dropped
-        have : Derived (rest ++ (isz, ist) :: r) :=
-          Derived.index (size := o.1) (stride := o.2) h (by omega)
+        have : Q (rest ++ (isz, ist) :: r) :=
+          hQ.index (size := o.1) (stride := o.2) h (by omega)
         rw [h1, Nat.mul_one]; exact this
-      · have h' : Derived (rest ++ (o.1, ist * isz) :: (isz, ist) :: r) := by
+      · have h' : Q (rest ++ (o.1, ist * isz) :: (isz, ist) :: r) := by
           rw [← h2]; exact h
-        exact Derived.merge h'
+        exact hQ.merge h'
     · exact h
 
-theorem mergeFold_derived : ∀ (xs acc : Dims), Derived (xs.reverse ++ acc) →
-    Derived (xs.foldl mergeStep acc) := by
+theorem mergeFold_closed (hQ : ViewClosed Q) : ∀ (xs acc : Dims), Q (xs.reverse ++ acc) →
+    Q (xs.foldl mergeStep acc) := by
   intro xs
   induction xs with
   | nil => intro acc h; simpa using h
@@ -423,13 +459,108 @@ theorem mergeFold_derived : ∀ (xs acc : Dims), Derived (xs.reverse ++ acc) →
     intro acc h
     simp only [List.foldl_cons]
     apply ih
-    apply mergeStep_derived
+    apply mergeStep_closed hQ
     simpa using h
 
 /-- `merge_axes`. -/
-theorem c08_mergeAxes_derived (v : View) (h : Derived v.dims) : Derived (mergedAxes v).dims := by
+theorem viewClosed_mergeAxes (hQ : ViewClosed Q) (v : View) (h : Q v.dims) : Q (mergedAxes v).dims := by
   unfold mergedAxes mergeAxes
-  exact mergeFold_derived v.dims.reverse [] (by simpa using h)
+  exact mergeFold_closed hQ v.dims.reverse [] (by simpa using h)
+
+end Generic
+
+/-! ### The two instances, per operation
+
+`…_derived`: the result stays in the advertised class `Derived`.
+`…_accepted`: **`mayOverlap v.dims = false → op v = .ok v' → mayOverlap v'.dims = false`** — the
+verdict (hence, by T1, injectivity on valid indices) is preserved by every modelled view
+operation, whatever the origin of the accepted layout (`_mut` views and in-place layout
+mutators of mutable tensors use the same layout functions). -/
+
+theorem c08_permuted_derived (v v' : View) (p : List Nat) (h : Derived v.dims)
+    (hop : permuted v p = .ok v') : Derived v'.dims :=
+  viewClosed_permuted derived_viewClosed v v' p h hop
+
+theorem c08_permuted_accepted (v v' : View) (p : List Nat) (h : mayOverlap v.dims = false)
+    (hop : permuted v p = .ok v') : mayOverlap v'.dims = false :=
+  viewClosed_permuted accepted_viewClosed v v' p h hop
+
+theorem c08_moveAxis_derived (v v' : View) (src dst : Nat) (h : Derived v.dims)
+    (hop : moveAxis v src dst = .ok v') : Derived v'.dims :=
+  viewClosed_moveAxis derived_viewClosed v v' src dst h hop
+
+theorem c08_moveAxis_accepted (v v' : View) (src dst : Nat) (h : mayOverlap v.dims = false)
+    (hop : moveAxis v src dst = .ok v') : mayOverlap v'.dims = false :=
+  viewClosed_moveAxis accepted_viewClosed v v' src dst h hop
+
+theorem c08_trySlice_derived (v v' : View) (items : List SliceItem) (h : Derived v.dims)
+    (hop : trySlice v items = .ok v') : Derived v'.dims :=
+  viewClosed_trySlice derived_viewClosed v v' items h hop
+
+theorem c08_trySlice_accepted (v v' : View) (items : List SliceItem) (h : mayOverlap v.dims = false)
+    (hop : trySlice v items = .ok v') : mayOverlap v'.dims = false :=
+  viewClosed_trySlice accepted_viewClosed v v' items h hop
+
+theorem c08_sliceAxis_derived (v v' : View) (axis start stop : Nat) (h : Derived v.dims)
+    (hop : sliceAxis v axis start stop = .ok v') : Derived v'.dims :=
+  viewClosed_sliceAxis derived_viewClosed v v' axis start stop h hop
+
+theorem c08_sliceAxis_accepted (v v' : View) (axis start stop : Nat) (h : mayOverlap v.dims = false)
+    (hop : sliceAxis v axis start stop = .ok v') : mayOverlap v'.dims = false :=
+  viewClosed_sliceAxis accepted_viewClosed v v' axis start stop h hop
+
+theorem c08_indexAxis_derived (v v' : View) (axis index : Nat) (h : Derived v.dims)
+    (hop : indexAxis v axis index = .ok v') : Derived v'.dims :=
+  viewClosed_indexAxis derived_viewClosed v v' axis index h hop
+
+theorem c08_indexAxis_accepted (v v' : View) (axis index : Nat) (h : mayOverlap v.dims = false)
+    (hop : indexAxis v axis index = .ok v') : mayOverlap v'.dims = false :=
+  viewClosed_indexAxis accepted_viewClosed v v' axis index h hop
+
+theorem c08_splitAt_derived (v v' : View) (axis mid : Nat) (right : Bool) (h : Derived v.dims)
+    (hop : splitAt v axis mid right = .ok v') : Derived v'.dims :=
+  viewClosed_splitAt derived_viewClosed v v' axis mid right h hop
+
+theorem c08_splitAt_accepted (v v' : View) (axis mid : Nat) (right : Bool) (h : mayOverlap v.dims = false)
+    (hop : splitAt v axis mid right = .ok v') : mayOverlap v'.dims = false :=
+  viewClosed_splitAt accepted_viewClosed v v' axis mid right h hop
+
+theorem c08_insertAxis_derived (v v' : View) (index : Nat) (h : Derived v.dims)
+    (hop : insertAxis v index = .ok v') : Derived v'.dims :=
+  viewClosed_insertAxis derived_viewClosed v v' index h hop
+
+theorem c08_insertAxis_accepted (v v' : View) (index : Nat) (h : mayOverlap v.dims = false)
+    (hop : insertAxis v index = .ok v') : mayOverlap v'.dims = false :=
+  viewClosed_insertAxis accepted_viewClosed v v' index h hop
+
+theorem c08_removeAxis_derived (v v' : View) (index : Nat) (h : Derived v.dims)
+    (hop : removeAxis v index = .ok v') : Derived v'.dims :=
+  viewClosed_removeAxis derived_viewClosed v v' index h hop
+
+theorem c08_removeAxis_accepted (v v' : View) (index : Nat) (h : mayOverlap v.dims = false)
+    (hop : removeAxis v index = .ok v') : mayOverlap v'.dims = false :=
+  viewClosed_removeAxis accepted_viewClosed v v' index h hop
+
+theorem c08_transposed_derived (v : View) (h : Derived v.dims) : Derived (transposed v).dims :=
+  viewClosed_transposed derived_viewClosed v h
+
+theorem c08_transposed_accepted (v : View) (h : mayOverlap v.dims = false) :
+    mayOverlap (transposed v).dims = false :=
+  viewClosed_transposed accepted_viewClosed v h
+
+theorem c08_squeezed_derived (v : View) (h : Derived v.dims) : Derived (squeezed v).dims :=
+  viewClosed_squeezed derived_viewClosed v h
+
+theorem c08_squeezed_accepted (v : View) (h : mayOverlap v.dims = false) :
+    mayOverlap (squeezed v).dims = false :=
+  viewClosed_squeezed accepted_viewClosed v h
+
+theorem c08_mergeAxes_derived (v : View) (h : Derived v.dims) : Derived (mergedAxes v).dims :=
+  viewClosed_mergeAxes derived_viewClosed v h
+
+theorem c08_mergeAxes_accepted (v : View) (h : mayOverlap v.dims = false) :
+    mayOverlap (mergedAxes v).dims = false :=
+  viewClosed_mergeAxes accepted_viewClosed v h
 
 /-! ### reshaping -/
 
